@@ -1,6 +1,7 @@
 """C13 -- variable metadata reports the declared attributes.
 
-E4: all single choices and all pairs of (attribute, expression form) on every variable kind; the
+E4: all single choices and all pairs of (attribute, expression form) on every variable kind (the forms include,
+for each operation the metadata function accepts in an affine block, an affine and a non-affine instance); the
 reference value of each attribute expression at every point of a parameter grid is compared with
 (i) the attribute on the Variable object (MX attributes evaluated as functions of the model's
 parameters) and (ii) the matching row / column of variable_metadata_function.
@@ -35,6 +36,38 @@ FORMS = {
     "p-squared": B("^", P, N(2)),
     "sin-p": ("call", "sin", (P,)),
 }
+# variable_metadata_function decides per variable group whether the attribute block is affine in the parameters
+# (every operation in {const, +, -, *, /, neg} and a zero second derivative) and, if every group is, rebuilds the
+# function as A(0)*p + b(0).  The forms above reach the rebuild only with -p and p/2 (2*p is its own operation,
+# outside the list).  WL_FORMS is the alphabet of that decision: for each listed operation an affine instance and a
+# non-affine one -- the two non-affine cores p*q and q/p bare, negated, in a sum and in a difference, the other
+# shapes of a quotient (literal / p, 1 / p, p / q, affine / p, p / affine) and the product p*p.  Each stands alone
+# in its model (all other attributes literal), so nothing else switches the rebuild off.
+WL_AFFINE = {
+    "three-p": B("*", N(3), P),
+    "p-plus-q": B("+", P, Q),
+    "p-minus-q": B("-", P, Q),
+    "affine-wl": B("-", B("+", B("*", N(3), P), B("/", Q, N(4))), N(1)),
+}
+WL_NONAFFINE = {
+    "q-over-p": B("/", Q, P),
+    "p-over-q": B("/", P, Q),
+    "two-over-p": B("/", N(2), P),
+    "one-over-p": B("/", N(1), P),
+    "neg-p-times-q": ("un", "-", B("*", P, Q)),
+    "neg-q-over-p": ("un", "-", B("/", Q, P)),
+    "pq-plus-p": B("+", B("*", P, Q), P),
+    "p-minus-q-over-p": B("-", P, B("/", Q, P)),
+    "p-minus-q-times-p": B("*", B("-", P, Q), P),
+    "sum-over-p": B("/", B("+", P, Q), P),
+    "p-over-q-plus-1": B("/", P, B("+", Q, N(1))),
+    "p-times-p": B("*", P, P),
+}
+WL_FORMS = dict(WL_AFFINE, **WL_NONAFFINE)
+FORMS.update(WL_FORMS)
+# quick: the whitelist forms on one kind per variable group of the function (+ one array kind); thorough: every kind
+WL_QUICK_KINDS = ("alg-Real", "state-Real", "input-Real", "parameter-Real", "constant-Real", "alg-Real-1d")
+PAIR_FORMS = ["real-literal", "affine", "p-times-q", "affine-wl", "q-over-p"]
 INT_FORMS = {"int-literal": N(2), "int-literal-3": N(3)}
 GRID = [(2.0, 3.0), (-1.5, 0.5), (0.25, -4.0)]
 
@@ -76,6 +109,8 @@ def cases(tier):
         attrs = num_attrs + (("value",) if own else ())
         for a in attrs:
             for fn, fe in forms.items():
+                if fn in WL_FORMS and tier != "thorough" and kind not in WL_QUICK_KINDS:
+                    continue
                 if dims:
                     out.append((kind, {a: (fn, fe, True)}))
                 else:
@@ -87,7 +122,7 @@ def cases(tier):
             for a in num_attrs:
                 out.append((kind, {a: ("array-literal", lit, False)}))
         # pairs
-        pair_forms = ["real-literal", "affine", "p-times-q"] if typ == "Real" else list(forms)
+        pair_forms = PAIR_FORMS if typ == "Real" else list(forms)
         if kind in ("alg-Real", "state-Real", "parameter-Real", "alg-Integer", "alg-Real-1d") or tier == "thorough":
             for a1, a2 in itertools.combinations(attrs, 2):
                 for f1, f2 in itertools.product(pair_forms, repeat=2):
@@ -267,7 +302,10 @@ HFORMS = {
     "r-plus-k": B("+", R, K),
     "k-times-p": B("*", K, P),
     "sin-r": ("call", "sin", (R,)),
+    "k-over-p": B("/", K, P),  # quotient, non-affine -> affine (k / 2) once p is inlined
+    "p-over-k": B("/", P, K),  # quotient that stays non-affine (2 / k); thorough only
 }
+HFORMS_THOROUGH_ONLY = ("p-over-k",)
 ROT_FORMS = ["affine-p", "r-plus-k", "p-times-q", "k-times-p"]  # all integer-valued on integers
 HGRID = [
     {"p": 2.0, "q": 3.0, "k": 0.5, "r": -1.25, "c": 4.0, "x": 1.75},
@@ -318,10 +356,11 @@ def hmodels(tier):
 
     num_attrs = ("min", "max", "start", "nominal")
     # one attribute, every form: each form's own transitions (non-affine -> constant, bilinear -> affine, ...)
-    for i, (fn, fe) in enumerate(HFORMS.items()):
+    hforms = {fn: fe for fn, fe in HFORMS.items() if tier == "thorough" or fn not in HFORMS_THOROUGH_ONLY}
+    for i, (fn, fe) in enumerate(hforms.items()):
         for a in num_attrs if tier == "thorough" else (num_attrs[i % 4], num_attrs[(i + 2) % 4]):
             add("alg-Real", {a: (fn, fe, False)})
-    for fn, fe in HFORMS.items():
+    for fn, fe in hforms.items():
         add("parameter-Real", {"value": (fn, fe, False)})
     for fn in ("affine-p", "p-times-q", "r-plus-k"):
         add("constant-Real", {"value": (fn, HFORMS[fn], False)})
@@ -687,9 +726,12 @@ def run(ctx):
             "exhaustive": True,
             "rule": "(1) for each of %d variable kinds (Real/Integer/Boolean; scalar, 1-D, 2-D; algebraic/state/input/parameter/"
             "constant): defaults, every single (attribute, form) with forms real literal, integer literal, -p, 2*p+1, p/2, p*q, "
-            "p^2, sin(p) (each-modified for arrays), array literals, fixed true/false, and all pairs of attributes with forms "
-            "literal / affine / non-affine; each checked on the Variable object and in variable_metadata_function at %d "
-            "parameter points. Non-trivial = the declaration carries at least one attribute or value.  "
+            "p^2, sin(p) (each-modified for arrays), array literals, fixed true/false; the alphabet of the function's "
+            "affine-in-the-parameters decision (operations const + - * / neg and a zero second derivative), each form alone "
+            "in its model: affine 3*p, p+q, p-q, 3*p+q/4-1 and non-affine q/p, p/q, 2/p, 1/p, -(p*q), -(q/p), p*q+p, p-q/p, "
+            "(p-q)*p, (p+q)/p, p/(q+1), p*p, on every attribute%s; and all pairs of attributes with forms literal / 2*p+1 / "
+            "p*q / 3*p+q/4-1 / q/p; each checked on the Variable object and in variable_metadata_function at %d "
+            "parameter points (p, q never 0). Non-trivial = the declaration carries at least one attribute or value.  "
             "(2) histories on one Model object: for %d models whose attributes depend on parameters (with values, free, "
             "and defined by an expression), a constant and an alias pair, every sequence of at most %d events from {read "
             "the metadata function, read every Variable attribute, simplify(o)} with o each option set that can change "
@@ -697,7 +739,8 @@ def run(ctx):
             "replace_constant_expressions, replace_parameter_values, replace_constant_values, expand_vectors, detect_aliases%s); "
             "both views are compared with the reference at every read and after the last event, for every listed variable "
             "and every variable list.  A history is non-trivial when one of its simplify calls changes the reference state."
-            % (len(KINDS), len(GRID), len(hm), hdepth(ctx.tier), "; replace_parameter_expressions + replace_parameter_values together" if ctx.tier == "thorough" else ""),
+            % (len(KINDS), " of every Real kind" if ctx.tier == "thorough" else " of one scalar Real kind per variable group "
+               "(state, algebraic, input, parameter, constant) and a 1-D algebraic", len(GRID), len(hm), hdepth(ctx.tier), "; replace_parameter_expressions + replace_parameter_values together" if ctx.tier == "thorough" else ""),
         }
     )
     ctx.assumptions.append("array attributes with parameter-dependent *elements* ({p, 2*p}) are outside the alphabet")
